@@ -786,4 +786,43 @@ theorem wrap_shortcut_unobservable_ownlb (env : Env) (henv : env.opps = ownOpps 
   wrap_shortcut_unobservable_own env hcw o hb pen0 halg text fun p hp hlt hu =>
     ⟨oppsNoSpace_own env henv _ (hf p hp hlt hu), boundary_own env lbTables henv _⟩
 
+/-- **every paragraph that fits comes back as one unchanged line — the whole text, BOTH separators,
+    BOTH algorithms, no contract of an external crate.** First-fit or optimal-fit with any
+    penalties having `nline_penalty > 0`, built-in splitters, `break_words` on or off, any indents:
+    if every paragraph is safe (the complement is KF-1a/1b/2), fits next to the indent its line
+    carries and — Unicode separator — contains no hard-line-break character, `wrap` returns exactly
+    these paragraphs, each with its indent and without trailing spaces. `smawk`'s algorithm and
+    `unicode_linebreak`'s scan run inside the model. -/
+-- @audit TW.C05.wrap_fitting_paragraphs_own_all
+theorem wrap_fitting_paragraphs_own_all (env : Env) (henv : env.opps = ownOpps lbTables)
+    (hsp : env.cw SP = 1) (hcw : ∀ c, env.cw c ≤ c.utf8Size)
+    (o : Opts) (hb : Builtin o.splitter) (pen0 : Penalties)
+    (halg : o.alg = .firstFit ∨ (o.alg = .optimalFit pen0 ∧ 0 < pen0.nline)) (text : Text)
+    (hsafe : ∀ p ∈ splitEnding o.lineEnding text, SeqSafe o.splitter p)
+    (hfit : ∀ p ∈ splitEnding o.lineEnding text, ∀ n,
+      displayWidth env.cw (indentOf o n) + displayWidth env.cw p ≤ o.width)
+    (hf : o.sep = .unicode → ∀ p ∈ splitEnding o.lineEnding text, HardFree (stripAnsi p)) :
+    wrap env (ownMinima (α := Int) pen0) o text = some (fitLines o (splitEnding o.lineEnding text) 0) := by
+  rw [wrap_shortcut_unobservable_ownlb env henv hcw o hb pen0 halg text (fun p hp _ hs => hf hs p hp)]
+  unfold wrapNoShortcut
+  apply wrapR_fitting
+  intro p hp n
+  obtain ⟨frs, hpipe⟩ := pipeline_total env o hb p (o.width - displayWidth env.cw o.subsequentIndent)
+    (fun _ => boundary_own env lbTables henv _)
+  obtain ⟨c1, c2⟩ := pipeline_contig env o (builtin_inRange _ _ hb) p _ frs hpipe
+  have hnp := pipeline_noPen env o hb p _ frs hpipe
+  have hl : LastOk frs := by
+    cases hs : o.sep with
+    | ascii => exact pipeline_lastOk_ascii env o hs (builtin_inRange _ _ hb) p _ frs hpipe
+    | unicode =>
+      exact pipeline_lastOk_unicode env o hs (builtin_inRange _ _ hb) p
+        (oppsNoSpace_own env henv _ (hf hs p hp)) _ frs hpipe
+  rcases halg with h | ⟨h, hP⟩
+  · rw [fits_one_line_firstfit_safe env hsp _ o hb h p (hsafe p hp) n frs hpipe (hfit p hp n)]
+    simp only [Option.map_some, Option.some.injEq]
+    exact one_line_render env o p n frs c2 hl hnp c1
+  · rw [fits_one_line_optimal_own env hsp o hb pen0 h hP p (hsafe p hp) n frs hpipe (hfit p hp n)]
+    simp only [Option.map_some, Option.some.injEq]
+    exact one_line_render env o p n frs c2 hl hnp c1
+
 end TW.C05
